@@ -16,7 +16,7 @@ def run(ctx):
     if rr.returncode != 0:
         cur = open(os.path.join(outd, "limiter_current.json")).read() if os.path.exists(os.path.join(outd, "limiter_current.json")) else "?"
         if "panic:" in rr.stderr and "goroutine" in rr.stderr:
-            ctx.violation("Limiter: a panic in a submitted function terminated the process: %s" % rr.stderr[:300],
+            ctx.violation("Limiter: the process was terminated by a panic (a panicking function must not kill it; limits below 1 fall back to 3): %s" % rr.stderr[:300],
                           {"component": "LimiterCrash", "scenario": cur, "stderr": rr.stderr[:3000]}, key="Limiter/crash")
             return
         raise Inconclusive("limiter driver failed: %s" % rr.stderr[-2000:])
